@@ -89,9 +89,11 @@ Theorem C18_element_to_nodes_total : forall dim topo cs, blocks_ok topo = true -
 Proof. exact element_to_nodes_total. Qed.
 Print Assumptions C18_element_to_nodes_total.
 
-(* all pool sizes / schedules: the row writes may be performed in any order *)
-Theorem C18_dual_sched_indep : forall sched m,
-  (forall ws, Permutation ws (sched ws)) -> wf_mesh m = true -> dual_sched sched m = dual m.
+(* all pool sizes / schedules: the row writes into `indice_locks` and the copies into
+   `indices` may each be performed in any order *)
+Theorem C18_dual_sched_indep : forall sched sched2 m,
+  (forall ws, Permutation ws (sched ws)) -> (forall ts, Permutation ts (sched2 ts)) ->
+  wf_mesh m = true -> dual_sched sched sched2 m = dual m.
 Proof. exact dual_sched_indep. Qed.
 Print Assumptions C18_dual_sched_indep.
 
